@@ -29,7 +29,7 @@ func init() { core.Register(&HW{}) }
 
 type WCfg struct {
 	Sim      simrt.Config    `json:"sim"`
-	Chunks   []string        `json:"chunks"` // successive appends
+	Chunks   []core.Bin      `json:"chunks"` // successive appends (arbitrary bytes: a chunk may end inside a multi-byte rune)
 	Pauses   []time.Duration `json:"pauses"`
 	ReadBuf  int             `json:"read_buffer"`
 	MaxSize  int             `json:"max_event_size"`
@@ -114,7 +114,7 @@ func (h *HW) Gen(rng *rand.Rand, tier, prop string) core.Cfg {
 		case core.Chance(rng, 0.7):
 			n = core.Between(rng, 1, min(len(all), 12))
 		}
-		c.Chunks = append(c.Chunks, all[:n])
+		c.Chunks = append(c.Chunks, core.Bin(all[:n]))
 		all = all[n:]
 		if core.Chance(rng, 0.5) {
 			c.Pauses = append(c.Pauses, 0)
@@ -134,7 +134,7 @@ func (h *HW) Shrink(cc core.Cfg) []core.Cfg {
 	var out []core.Cfg
 	clone := func() *WCfg {
 		d := *c
-		d.Chunks = append([]string(nil), c.Chunks...)
+		d.Chunks = append([]core.Bin(nil), c.Chunks...)
 		d.Pauses = append([]time.Duration(nil), c.Pauses...)
 		return &d
 	}
